@@ -620,6 +620,9 @@ fn unhide(ctx: &mut Ctx) {
                     lines.push(format!("{}#@#+js({})", r.ps(&covering), a));
                 }
             }
+            if r.chance(1, 3) {
+                lines.push(r.ps(&["@@||u.example^$generichide", "@@||sub.u.example^$generichide"]).to_string());
+            }
             r.shuffle(&mut lines);
             let mut fs = FilterSet::new(true);
             fs.add_filters(&lines, ParseOptions::default());
